@@ -113,6 +113,10 @@ def run(case):
                 out.append(err(e))
                 break
             out.append(ticks_of(d.beat_count))
+            if kind != "D" and abs(float(d.ratio) - d.beat_count) > 1e-9 * max(1.0, abs(d.beat_count)):
+                flags.append("ratio-disagrees-with-beat-count")
+            if abs(float(d) - d.beat_count) > 0:
+                flags.append("float-disagrees-with-beat-count")
         else:
             out.append(ticks_of(d.beat_count))
         if flags:
@@ -136,12 +140,15 @@ def run(case):
         elif t == "frac":
             obj = Fraction(int(p[1][1]), int(p[1][2]))
         elif t == "str-int":
-            obj = str(int(p[1]))
+            n = int(p[1])
+            obj = ("+" + str(n)) if n > 0 and n % 4 == 1 else str(n)      # the grammar is [+-]?digits
         elif t == "str-float":
             q = Fraction(int(p[1][1]), int(p[1][2]))
             obj = repr(float(q))
             if "." not in obj or "e" in obj:
                 obj = f"{float(q):.10f}"
+            if obj.startswith("0.") and int(p[1][1]) % 3 == 0:
+                obj = obj[1:]                 # ".5"
         elif t == "str-frac":
             obj = f"{int(p[1])}/{int(p[2])}"
         elif t == "str-list":
@@ -181,7 +188,10 @@ def run(case):
     if k == "seconds":
         bpm = int(case[1]) / int(case[2])
         t = cp.DirectTempo(bpm)
-        w = cp.WesternTempo(bpm, reference=Fraction(int(case[3]), int(case[4])))
+        import ranges
+        ref = Fraction(int(case[3]), int(case[4]))
+        # the tempo range as a single number or (every other case) as a real range: bpm is its START times the reference
+        w = cp.WesternTempo(ranges.Range(bpm, bpm + 12), reference=ref) if int(case[1]) % 2 else cp.WesternTempo(bpm, reference=ref)
         return ["ok", (t.seconds * t.bpm).hex(), float(w.bpm).hex(), float(w.seconds * w.bpm).hex()]
     raise ValueError(case)
 
